@@ -75,6 +75,9 @@ def gen_C10():
     fconst(f, "ca_ack_divisor", cub, r"self\.congestion_window\s*\+\s*sent_bytes\s+as\s+f32\s*/\s*([0-9._]+)\s*\)", CUBIC)
     fconst(f, "low_ssthresh", hss, r"const\s+LOW_SSTHRESH\s*:\s*f32\s*=\s*([0-9._]+)\s*;", HSS)
 
+    f.const("hss_n_sampling", HSS, r"const\s+N_SAMPLING\s*:\s*usize\s*=\s*([^;]+);")
+    f.const("hss_threshold_dividend", HSS, r"const\s+THRESHOLD_DIVIDEND\s*:\s*u32\s*=\s*([^;]+);")
+
     # ---- BBR
     f.const("bbr_min_pipe_cwnd_packets", BBR, r"const\s+MIN_PIPE_CWND_PACKETS\s*:\s*u16\s*=\s*([^;]+);")
     f.const("bbr_initial_window_limit", BBR, r"const\s+INITIAL_WINDOW_LIMIT\s*:\s*u32\s*=\s*([^;]+);")
